@@ -113,6 +113,27 @@ def long_list_case(run, la=4, lb=4, nprim=4):
     return ok
 
 
+def scanned_origin_case(run):
+    """a caller scans the moment origin by editing one array in place and passing the same origin and order objects again"""
+    from gbasis.integrals.moment import moment_integral
+    rng = run.rng
+    specs = random_basis(rng, 2, 2, lmax=2, exp_hi=10.0)
+    basis = make_basis(specs)
+    origin = np.array([0.0, 0.0, 0.0])
+    orders = np.array([[1, 0, 0], [0, 1, 1], [0, 0, 0], [2, 0, 1]])
+    ok = True
+    for step, new in enumerate(([0.0, 0.0, 0.0], [0.3, -0.2, 0.5], [2.0, 1.0, -1.5])):
+        origin[:] = new
+        impl = moment_integral(basis, origin, orders)
+        line = ("moment " + btok(specs) + " " + " ".join(core.enc(x) for x in origin) + f" {len(orders)} " + " ".join(str(int(v)) for v in orders.ravel()))
+        model, mag = run.model.array_mag(line)
+        run.case(("scan-origin", step) + sig(specs))
+        run.count("origin array edited in place between calls")
+        ok &= compare(run, "moment_integral (same origin object, edited in place since the previous call)", impl, model, 1e-9 * mag + 1e-290,
+                      {"case": "scan-origin", "basis": core.describe_basis(specs), "origin": list(new), "signature": {"kind": "moment-scan-origin"}}, "moment-scan-origin")
+    return ok
+
+
 def representation_cases(run):
     from gbasis.integrals.moment import moment_integral
     rng = run.rng
@@ -200,6 +221,9 @@ def check(run):
     # origins very far away: 3e7 and 1e9 bohr (the (0,0,0) slice must still be the overlap, every slice exact to rounding)
     for far in ([3.0e7, -1.0e7, 2.0e7], [1.0e9, 5.0e8, -7.0e8]):
         specs = random_basis(rng, 2, 2, lmax=2)
+        # two distinct centres in general position (the pool of `random_basis` forces coincidences, and one-centre blocks do not
+        # see how the origin enters)
+        specs = [specs[0].copy(center=[0.35, -0.6, 0.85]), specs[1].copy(center=[-0.75, 0.4, -0.2])]
         one_case(run, specs, far, [(0, 0, 0), (1, 0, 0), (0, 1, 1)], None, "very-far")
         run.count("origin 1e7..1e9 bohr away")
     for _ in range(4 if run.tier == "quick" else 30):
@@ -210,6 +234,7 @@ def check(run):
             specs = pair_specs(rng, la, lb)
             one_case(run, specs, [0.25, -0.5, 0.125], [rng.choice(triples) for _ in range(3)], None, "off")
     representation_cases(run)
+    scanned_origin_case(run)
     long_list_case(run)
     if run.tier != "quick":
         long_list_case(run, 5, 3, 4)
@@ -221,6 +246,9 @@ def check(run):
 
 def replay(run, rep):
     n0 = len(run.violations)
+    if rep.get("case") == "scan-origin":
+        scanned_origin_case(run)
+        return len(run.violations) == n0
     if rep.get("case") == "long-list":
         long_list_case(run)
         return len(run.violations) == n0
